@@ -1,9 +1,11 @@
 package c19
 
 import (
+	stdcrypto "crypto"
 	"encoding/xml"
 	"net/http"
 	"reflect"
+	"sort"
 	"strings"
 	"time"
 
@@ -66,39 +68,20 @@ var extensionPool = []string{
 
 // overrides of the reflective generator, keyed by <type>.<field path>.
 var overrides = map[string]func(g *gen) reflect.Value{
-	"disco.Caps.Hash": func(g *gen) reflect.Value {
-		if g.r.Intn(8) == 0 {
-			return rv(pick(g, crypto.Hash(0), crypto.Hash(99)))
-		}
-		return rv(pick(g, validHashes...))
-	},
-	"crypto.HashOutput.Hash": func(g *gen) reflect.Value { return rv(pick(g, validHashes...)) },
-	"file.Meta.Hash.Hash": func(g *gen) reflect.Value {
-		if g.r.Intn(6) == 0 {
-			return rv(crypto.Hash(0))
-		}
-		return rv(pick(g, validHashes...))
-	},
+	"disco.Caps.Hash":        hashEnum,
+	"crypto.HashOutput.Hash": hashEnum, // invalid values: only the encoders that return an error are called (TokenReader is documented to panic)
+	"file.Meta.Hash.Hash":    hashEnum,
 	"muc.Invitation.XMLName": func(g *gen) reflect.Value {
 		return rv(pick(g, xml.Name{}, directName, directName, xml.Name{Space: muc.NSUser, Local: "x"}, xml.Name{Space: "urn:example:other", Local: "y"}))
 	},
 	"muc.Item.Affiliation": func(g *gen) reflect.Value {
-		if g.r.Intn(12) == 0 {
-			return rv(muc.Affiliation(9))
-		}
-		return rv(muc.Affiliation(g.r.Intn(5)))
+		return rv(muc.Affiliation(enumValue(g, 0, 4, 0, 255)))
 	},
 	"muc.Item.Role": func(g *gen) reflect.Value {
-		if g.r.Intn(12) == 0 {
-			return rv(muc.Role(7))
-		}
-		return rv(muc.Role(g.r.Intn(4)))
+		return rv(muc.Role(enumValue(g, 0, 3, 0, 255)))
 	},
 	"commands.Note.Type": func(g *gen) reflect.Value {
-		if g.r.Intn(10) == 0 {
-			return rv(pick(g, commands.NoteType(-1), commands.NoteType(5)))
-		}
-		return rv(commands.NoteType(g.r.Intn(3)))
+		return rv(commands.NoteType(enumValue(g, 0, 2, -128, 127)))
 	},
 	"roster.Item.Subscription": func(g *gen) reflect.Value {
 		return rv(pick(g, "", "none", "to", "from", "both", "remove", g.str()))
@@ -120,16 +103,42 @@ var overrides = map[string]func(g *gen) reflect.Value{
 		return rv([]byte(s))
 	},
 	"saslerr.Error.Condition": func(g *gen) reflect.Value {
-		if g.r.Intn(12) == 0 {
-			return rv(saslerr.Condition(200))
-		}
-		return rv(saslerr.Condition(g.r.Intn(12)))
+		return rv(saslerr.Condition(enumValue(g, 0, 11, 0, 65535)))
 	},
+}
+
+// enumValue draws a value for an enumeration whose defined constants are
+// lo..hi inside a type ranging over min..max: mostly a defined constant, but
+// also zero, the first undefined value on either side, the extremes and -1.
+func enumValue(g *gen, lo, hi, min, max int64) int64 {
+	if g.r.Intn(4) != 0 {
+		return lo + g.r.Int63n(hi-lo+1)
+	}
+	g.outOfRange++
+	cands := []int64{0, hi + 1, max, max - 1, (hi + max) / 2}
+	if min < lo {
+		cands = append(cands, lo-1, -1, min)
+	}
+	return cands[g.r.Intn(len(cands))]
+}
+
+// hashEnum: the nine hash functions with a wire name, and identifiers without
+// one: zero, other crypto.Hash constants (MD4, MD5, SHA512_256, ...), the first
+// value past the standard library's list, large numbers.
+func hashEnum(g *gen) reflect.Value {
+	if g.r.Intn(3) != 0 {
+		return rv(pick(g, validHashes...))
+	}
+	g.outOfRange++
+	return rv(pick(g, crypto.Hash(0), crypto.Hash(stdcrypto.MD4), crypto.Hash(stdcrypto.MD5), crypto.Hash(stdcrypto.MD5SHA1), crypto.Hash(stdcrypto.RIPEMD160),
+		crypto.Hash(stdcrypto.SHA512_224), crypto.Hash(stdcrypto.SHA512_256), crypto.Hash(stdcrypto.BLAKE2s_256), crypto.Hash(stdcrypto.BLAKE2b_384),
+		crypto.Hash(20), crypto.Hash(99), crypto.Hash(1<<20), crypto.Hash(^uint(0))))
 }
 
 func iqType(g *gen) reflect.Value {
 	// the stanza wrapper is C13's subject: only valid types here (an empty type is written as type="" by IQ.Wrap but as type="get" by the struct tags)
-	return rv(pick(g, stanza.GetIQ, stanza.SetIQ, stanza.ResultIQ, stanza.ErrorIQ))
+	// plus undefined non-empty ones
+	return rv(pick(g, stanza.GetIQ, stanza.SetIQ, stanza.ResultIQ, stanza.ErrorIQ, stanza.GetIQ, stanza.SetIQ, stanza.IQType("bogus"), stanza.IQType("GET"), stanza.IQType(g.word())))
 }
 
 func refl[T any](name string, opts ...func(*entry)) *entry {
@@ -164,6 +173,27 @@ func withNorm[T any](f func(v T) T) func(*entry) {
 func noDecoder(e *entry) { e.fresh = nil; e.noDocs = true }
 
 func canonicalKey(h string) string { return http.CanonicalHeaderKey(h) }
+
+// normSlot: allowed headers only, canonical names, values of one name as a
+// sorted multiset.
+func normSlot(s upload.Slot) upload.Slot {
+	var h http.Header
+	for name, vals := range s.Header {
+		cn := canonicalKey(name)
+		if !allowedHeader(cn) || len(vals) == 0 {
+			continue
+		}
+		if h == nil {
+			h = http.Header{}
+		}
+		h[cn] = append(h[cn], vals...)
+	}
+	for _, vals := range h {
+		sort.Strings(vals)
+	}
+	s.Header = h
+	return s
+}
 
 func allowedHeader(name string) bool {
 	return name == "Authorization" || name == "Cookie" || name == "Expires"
@@ -402,33 +432,20 @@ func buildRegistry() []*entry {
 
 	// ---- upload
 	add(refl[upload.File]("upload.File"))
-	add(refl[upload.Slot]("upload.Slot", withNorm(func(s upload.Slot) upload.Slot {
-		// "The only valid headers are Authorization, Cookie and Expires. All
-		// other headers will be ignored"; names are canonicalised.
-		var h http.Header
-		for name, vals := range s.Header {
-			cn := canonicalKey(name)
-			if !allowedHeader(cn) || len(vals) == 0 {
-				continue
-			}
-			if h == nil {
-				h = http.Header{}
-			}
-			h[cn] = append(h[cn], vals...)
+	add(refl[upload.Slot]("upload.Slot", func(e *entry) {
+		// Slot.Header: "The only valid headers are Authorization, Cookie and
+		// Expires. All other headers will be ignored"; the encoder canonicalises
+		// the names.  A header map may hold one name under several spellings
+		// ("Cookie", "cookie", "COOKIE" by direct assignment): the canonical decoded
+		// value carries ALL their values under the canonical name.  The encoder
+		// walks the map, so the relative order of values that came from different
+		// keys is map order: headers are compared as multisets per canonical
+		// name - order-insensitive but value-complete - in every law.
+		e.equal = func(a, b any, c *cmp) *difference {
+			x, y := normSlot(*a.(*upload.Slot)), normSlot(*b.(*upload.Slot))
+			return c.diffValues(&x, &y)
 		}
-		s.Header = h
-		return s
-	}), withCanon(func(s *upload.Slot) string {
-		seen := map[string]bool{}
-		for name := range s.Header {
-			cn := canonicalKey(name)
-			if seen[cn] {
-				return "two spellings of one header name (their relative order is map order)"
-			}
-			seen[cn] = true
-		}
-		return ""
-	})))
+	}))
 
 	// ---- bin
 	add(refl[bin.Data]("bin.Data", withCanon(func(d *bin.Data) string {
@@ -465,6 +482,9 @@ func buildRegistry() []*entry {
 	})
 	add(attrEnumEntry("crypto.Hash(attr)"))
 	add(refl[crypto.HashOutput]("crypto.HashOutput", withCanon(func(h *crypto.HashOutput) string {
+		if !hashValid(h.Hash) {
+			return "hash function without a wire name"
+		}
 		if len(h.Out) == 0 {
 			return "empty hash output"
 		}
@@ -483,10 +503,7 @@ func buildRegistry() []*entry {
 	add(&entry{
 		name: "saslerr.Condition",
 		gen: func(g *gen) any {
-			c := saslerr.Condition(g.r.Intn(12))
-			if g.r.Intn(12) == 0 {
-				c = saslerr.Condition(200)
-			}
+			c := saslerr.Condition(enumValue(g, 0, 11, 0, 65535))
 			return &c
 		},
 		fresh: func() any { return new(saslerr.Condition) },
